@@ -269,6 +269,7 @@ func sameConfig(a, b ssa.Value) bool {
 
 func checkC15(c *Ctx, r *Report) {
 	defer diffOrderRule(c, r)
+	defer keysAsRenderedRule(c, r)
 	defer pathNotKeptRule(c, r, "R15o")
 	r.Assumption("FlattenedKeys' set equality and CompareConfigs' partition are value-level and not decided; they read contexts through path(), which is right when the invariant holds")
 	setFn := c.Method("", "fields", "set")
@@ -2078,4 +2079,35 @@ func diffOrderRule(c *Ctx, r *Report) {
 	}
 	r.Check(sorted && other == "", "R15n", c.FnName(cmp), "keys related by membership", c.Pos(cmp.Pos()), "ordered comparison at "+ordered+", and FlattenedKeys returns sort.Strings order",
 		"CompareConfigs compares flattened keys by the string order (at "+ordered+") but FlattenedKeys does not return them in sort.Strings order (other sort: "+other+"): where the two orders disagree (a.2 / a.10, http / http-alt) a key that both configurations have is reported as added and removed")
+}
+
+// keysAsRenderedRule (R15p): what FlattenedKeys returns are the paths of the settings as the contexts render them —
+// collected, sorted, returned. Text surgery on the keys on the way out (a prefix cut off, a separator trimmed, a
+// replacement) produces strings that are no paths of the tree: a key relative to a sub-configuration loses its leading
+// separator when the base is the root and the first name is "" ({"": {"x": 1}} reported as x, which Has denies).
+func keysAsRenderedRule(c *Ctx, r *Report) {
+	r.Rule("R15p", "FlattenedKeys returns the rendered paths as they are: between their collection and the return no strings.Trim* / Replace* / Cut* / Fields / Split call and no slicing rewrites a key", 1)
+	fk := c.Method("", "Config", "FlattenedKeys")
+	bad := ""
+	for _, f := range WithAnon(fk) {
+		Instrs(f, false, func(in ssa.Instruction) {
+			switch x := in.(type) {
+			case ssa.CallInstruction:
+				g := x.Common().StaticCallee()
+				if g == nil || g.Pkg == nil || g.Pkg.Pkg.Path() != "strings" {
+					return
+				}
+				n := g.Name()
+				if strings.HasPrefix(n, "Trim") || strings.HasPrefix(n, "Replace") || strings.HasPrefix(n, "Cut") || n == "Fields" || strings.HasPrefix(n, "Split") || n == "Map" || n == "ToLower" || n == "ToUpper" {
+					bad = "strings." + n + " at " + c.Pos(x.Pos())
+				}
+			case *ssa.Slice:
+				if b, ok := x.X.Type().Underlying().(*types.Basic); ok && b.Info()&types.IsString != 0 {
+					bad = "a string is sliced at " + c.Pos(x.Pos())
+				}
+			}
+		})
+	}
+	r.Check(bad == "", "R15p", c.FnName(fk), "keys returned as rendered", c.Pos(fk.Pos()), "no rewriting of key text in FlattenedKeys",
+		"FlattenedKeys rewrites the text of its keys ("+bad+"): what it returns are then no longer the paths the contexts render — a key can lose a separator that belongs to it (a setting named \"\" at the top) and name a setting that Has denies, and the diff compares those texts")
 }
